@@ -482,7 +482,7 @@ func enumerate(thorough bool) []Case {
 	// F0b (early, cheap): a cached branch joined with an uncached twin branch with the same
 	// operator sequence; Cache and CachePartial; every subset of shards pre-cached
 	// (including all: a fully warm cache); both branch orders; twin on a shared sub-slice.
-	for _, ops := range [][]int{{opMap, opReduce}, {opReduce}, {opReshard2, opMap}, {opMap}} {
+	for _, ops := range [][]int{{opMap, opReduce}, {opReduce}, {opReshard2, opMap}} {
 		for _, cop := range []int{opCache, opCachePartial} {
 			for n := 1; n <= 3; n++ {
 				sh := n
